@@ -9,9 +9,11 @@
          PANOC    a line-search pass costs <= 2 oracle calls + 1 prox step; a line-search test that sees the request returns
                   LsStopped with no further work; FROM ANY POLL THAT SEES THE REQUEST the run returns after <= 1 further poll,
                   <= 2 oracle calls (∇ψ(x̂) for the criterion, eval_ψ of the exit block in eager mode), no direction call, no
-                  iterate update, k unchanged, status Interrupted or a higher-ranked one; between two polls that see nothing:
-                  <= 3 oracle calls.  Independent of max_iter, fuel, the direction.
-         ZeroFPR  the same with <= 1 oracle call after the poll (eval_grad_L of the next stop check).
+                  iterate update, k unchanged, status Interrupted or a higher-ranked one; between two consecutive polls: <= 3 oracle
+                  calls; FROM THE REQUEST TO THE RETURN (the poll after pp sees it): <= 3 polls, 5 oracle calls, 2 direction calls,
+                  2 callbacks after pp; stop() inside a direction call (k >= 1): no further direction call.
+                  Independent of max_iter, fuel, the direction.
+         ZeroFPR  the same with <= 1 oracle call after the poll (eval_grad_L of the next stop check); request to return <= 4.
          PANTR    one poll per iteration: a poll that sees the request returns with NO further oracle call; the iteration in
                   progress completes first: <= 5 oracle calls + the halvings of its unpolled backtrack_qub loops.
          FISTA    one poll per iteration: <= 1 oracle call after the poll (late eval_ψ in fixed-step mode); the pass in progress
@@ -37,7 +39,7 @@
 From Coq Require Import Reals List ZArith Bool Arith.
 From Alpaqa Require Import Num NumR Vec Prox SolverStatus SolverKernels StopChain StopChainProofs LoopSkeleton SolverKernelsProofs Alm AlmProofs.
 From Alpaqa Require Import Panoc ZeroFpr Pantr FistaLoop AlmCompose AlmComposeProofs AlmPanoc AugLag.
-From Alpaqa Require Import StopPrompt StopPromptZfpr StopPromptPantr StopPromptFista StopPromptAlm StopPromptValid StopPromptEx.
+From Alpaqa Require Import StopPrompt StopPromptGap StopPromptZfpr StopPromptGapZ StopPromptPantr StopPromptFista StopPromptAlm StopPromptValid StopPromptEx.
 From Alpaqa Require PanocProofs ZeroFprProofs PantrProofs FistaLoopProofs.
 Import ListNotations.
 
@@ -173,6 +175,24 @@ Section C19_PANOC.
     out_iterations o = 0%nat /\ c_polls (out_cnt o) = 1%nat /\ c_dir (out_cnt o) = 0%nat /\ c_apply (out_cnt o) = 0%nat /\
     c_cb (out_cnt o) = 1%nat /\ (evals (out_cnt o) <= 5 + s_stepsize_bt (out_stats o))%nat.
   Proof. exact (panoc_stop_before_start psi_grad_full psi_yhat grad_L grad_psi lb ub l1 dir_apply has_initial stop_req time_up P x_in y_in Σ errz_in ls_fuel). Qed.
+  (* FROM THE REQUEST TO THE RETURN.  pp' is the poll following pp in the run; pp need not have seen the request, pp' sees it:
+     everything after pp is <= 3 polls, <= 5 oracle calls, <= 2 direction calls (<= 1 apply), <= 2 callbacks *)
+  Notation Poll_next := (panoc_poll_next psi_grad_full psi_yhat grad_L grad_psi lb ub l1 dir_apply has_initial stop_req time_up P x_in y_in Σ errz_in ls_fuel).
+  Theorem C19_panoc_request_to_return : sticky stop_req -> forall fuel o, run fuel = Done o ->
+    forall pp pp', Poll_next pp pp' -> stop_req (pp_cnt pp') = true ->
+    adv (pp_cnt pp) (out_cnt o) 3 5 2 1 2 /\ prompt_after P pp' o.
+  Proof. exact (panoc_request_to_return psi_grad_full psi_yhat grad_L grad_psi lb ub l1 dir_apply has_initial stop_req time_up P x_in y_in Σ errz_in ls_fuel). Qed.
+  (* consecutive polls of any loop state: one poll, <= 3 oracle calls, <= 2 direction calls, <= 1 callback apart *)
+  Theorem C19_panoc_consecutive_polls : forall (s : lstate (T:=T)) pp pp',
+    poll_next psi_grad_full psi_yhat grad_L grad_psi lb ub l1 dir_apply has_initial stop_req time_up P x_in y_in Σ errz_in ls_fuel s pp pp' ->
+    adv (pp_cnt pp) (pp_cnt pp') 1 3 2 1 1 /\ c_polls (pp_cnt pp') = S (c_polls (pp_cnt pp)).
+  Proof. exact (poll_next_gap psi_grad_full psi_yhat grad_L grad_psi lb ub l1 dir_apply has_initial stop_req time_up P x_in y_in Σ errz_in ls_fuel). Qed.
+  (* stop() issued INSIDE direction call #d at an iteration k >= 1 (visible as soon as c_dir has passed d): no further direction call *)
+  Theorem C19_panoc_stop_inside_direction_call : sticky stop_req -> forall fuel (s : lstate (T:=T)) o d, (forall c, stop_req c = (d <? c_dir c)%nat) ->
+    Panoc.loop psi_grad_full psi_yhat grad_L grad_psi lb ub l1 dir_apply has_initial stop_req time_up P x_in y_in Σ errz_in ls_fuel fuel s = Done o ->
+    forall pp pp', poll_next psi_grad_full psi_yhat grad_L grad_psi lb ub l1 dir_apply has_initial stop_req time_up P x_in y_in Σ errz_in ls_fuel s pp pp' ->
+    stop_req (pp_cnt pp) = false -> stop_req (pp_cnt pp') = true -> pp_k pp <> 0%nat -> c_dir (out_cnt o) = S d.
+  Proof. exact (fun Hs fuel s o d => loop_stop_inside_direction_call psi_grad_full psi_yhat grad_L grad_psi lb ub l1 dir_apply has_initial stop_req time_up P x_in y_in Σ errz_in ls_fuel Hs fuel s o d). Qed.
 End C19_PANOC.
 
 Section C19_ZEROFPR.
@@ -215,6 +235,16 @@ Section C19_ZEROFPR.
     out_iterations o = 0%nat /\ c_polls (out_cnt o) = 1%nat /\ c_dir (out_cnt o) = 0%nat /\ c_apply (out_cnt o) = 0%nat /\
     c_cb (out_cnt o) = 1%nat /\ (evals (out_cnt o) <= 4 + s_stepsize_bt (out_stats o))%nat.
   Proof. exact (zerofpr_stop_before_start psi_grad_full psi_yhat grad_L grad_psi lb ub l1 dir_apply has_initial stop_req time_up P x_in y_in Σ errz_in ls_fuel). Qed.
+  Notation Poll_next := (zerofpr_poll_next psi_grad_full psi_yhat grad_L grad_psi lb ub l1 dir_apply has_initial stop_req time_up P x_in y_in Σ errz_in ls_fuel).
+  Theorem C19_zerofpr_request_to_return : sticky stop_req -> forall fuel o, run fuel = Done o ->
+    forall pp pp', Poll_next pp pp' -> stop_req (pp_cnt pp') = true ->
+    adv (pp_cnt pp) (out_cnt o) 3 4 2 1 2 /\ zprompt_after P pp' o.
+  Proof. exact (zerofpr_request_to_return psi_grad_full psi_yhat grad_L grad_psi lb ub l1 dir_apply has_initial stop_req time_up P x_in y_in Σ errz_in ls_fuel). Qed.
+  Theorem C19_zerofpr_stop_inside_direction_call : sticky stop_req -> forall fuel (s : lstate (T:=T)) o d, (forall c, stop_req c = (d <? c_dir c)%nat) ->
+    ZeroFpr.loop psi_grad_full psi_yhat grad_L lb ub l1 dir_apply has_initial stop_req time_up P x_in y_in Σ errz_in ls_fuel fuel s = Done o ->
+    forall pp pp', zpoll_next psi_grad_full psi_yhat grad_L lb ub l1 dir_apply has_initial stop_req time_up P x_in y_in Σ errz_in ls_fuel s pp pp' ->
+    stop_req (pp_cnt pp) = false -> stop_req (pp_cnt pp') = true -> pp_k pp <> 0%nat -> c_dir (out_cnt o) = S d.
+  Proof. exact (fun Hs fuel s o d => zloop_stop_inside_direction_call psi_grad_full psi_yhat grad_L lb ub l1 dir_apply has_initial stop_req time_up P x_in y_in Σ errz_in ls_fuel Hs fuel s o d). Qed.
 End C19_ZEROFPR.
 
 Section C19_PANTR.
@@ -300,6 +330,10 @@ Print Assumptions C19_panoc_linesearch_stops_at_next_test.
 Print Assumptions C19_panoc_check_exits_at_request.
 Print Assumptions C19_panoc_stop_is_prompt.
 Print Assumptions C19_panoc_stop_before_start.
+Print Assumptions C19_panoc_request_to_return.
+Print Assumptions C19_panoc_stop_inside_direction_call.
+Print Assumptions C19_zerofpr_request_to_return.
+Print Assumptions C19_zerofpr_stop_inside_direction_call.
 Print Assumptions C19_zerofpr_stop_is_prompt.
 Print Assumptions C19_zerofpr_stop_before_start.
 Print Assumptions C19_pantr_stop_is_prompt.
